@@ -223,7 +223,7 @@ class CLI:
                 mos_file_keys = [self._args.key]
             else:
                 sys.stderr.write("Prefix or file key must be provided with bucket name\n\n")
-                self.do_help()
+                self.commands[self._args.cmd].print_help()
                 return 2
             for mos_file_key in mos_file_keys:
                 try:
@@ -237,7 +237,7 @@ class CLI:
                     print()
         else:
             sys.stderr.write("Files or bucket name and prefix or key must be provided\n\n")
-            self.do_help()
+            self.commands[self._args.cmd].print_help()
             return 2
 
     def detect_file(self, mo, filename):
@@ -270,7 +270,7 @@ class CLI:
                     )
             else:
                 sys.stderr.write("Files or bucket name and prefix must be provided\n\n")
-                self.do_help()
+                self.commands[self._args.cmd].print_help()
                 return 2
         except InvalidMosCollection as e:
             sys.stderr.write(f"Error: {e}\n")
